@@ -423,3 +423,44 @@ def capacity_history(rng):
     g.ops.append("proc state")
     g.ops.append("proc cleanexit default=200")
     return g.ops
+
+
+def overlap_history(rng):
+    """C03: a second connect attempt is launched (back-off expired, agent asks again) while the first is still in flight;
+    the two attempts are answered in either order with every combination of verdicts; then agents ask again"""
+    g = Gen(rng, napps=1, profile="lifecycle", timeout=0)
+    g.defapp(1)
+    h = g.apps[0]
+    g.ops.append("proc app %s run=-" % h)            # attempt 1: preconnect parked
+    stage1 = rng.choice(["pre", "pre", "con"])       # how far attempt 1 got before attempt 2 starts
+    if stage1 == "con":
+        g.ops.append("proc reply %s preconnect 0 200 host=coll-%s.example" % (h, h))
+    g.ops.append("proc advance %d" % rng.choice([30, 31, 44]))
+    g.ops.append("proc app %s run=-" % h)            # attempt 2: a second preconnect
+    # bring both attempts to the connect stage (or let a preconnect fail)
+    pre_out = rng.choice(["200", "200", "200", "410", "503"])
+    if stage1 == "pre":
+        g.ops.append("proc reply %s preconnect 0 200 host=coll-%s.example" % (h, h))
+    if pre_out == "200":
+        g.ops.append("proc reply %s preconnect 0 200 host=coll-%s.example" % (h, h))
+    else:
+        g.ops.append("proc reply %s preconnect 0 %s" % (h, pre_out))
+    outs = [rng.choice(["410", "401", "200", "200", "409", "503", "neterr"]) for _ in range(2)]
+    order = rng.choice([[0, 0], [1, 0]])             # which parked connect is answered first
+    for k, idx in enumerate(order):
+        o = outs[k]
+        if o == "200":
+            run, args = g.connect_reply_args(h)
+            g.ops.append("proc reply %s connect %d 200 %s" % (h, idx, args))
+            g.run_of[h] = run
+        else:
+            g.ops.append("proc reply %s connect %d %s" % (h, idx, o))
+        g.ops.append("proc app %s run=-" % h)
+        g.ops.append("proc state")
+    g.ops.append("proc advance 31")
+    g.ops.append("proc app %s run=-" % h)
+    g.ops.append("proc state")
+    for run in set(g.run_of.values()):
+        g.ops.append("proc app %s run=%s" % (h, run))
+    g.ops.append("proc cleanexit default=200")
+    return g.ops
